@@ -378,7 +378,9 @@ def main(tier, seed):
               "day), the 6-7 boundary days of every year 1900..9999 with "
               f"all strides +-{STRIDES}, and " +
               ("every 7th" if tier == "quick" else "every") +
-              f" second of the day on {len(sec_days)} days; reference = "
+              f" second of the day on {len(sec_days)} days, differences of "
+              f"instants 0-2 days and {NEAR_SECONDS} seconds apart; "
+              "reference = "
               "datetime.date ordinals; states = days, transitions = "
               "conversions/evaluations compared"),
         exhaustive=True,
